@@ -692,6 +692,28 @@ impl SkinSubmesh {
         })
     }
 
+    /// Write a vanilla submesh (32-byte structure), the counterpart of `parse_vanilla`
+    ///
+    /// The vanilla structure has no slot for the bone influence and the sort center.
+    pub(crate) fn write_vanilla<W: Write>(&self, writer: &mut W) -> Result<()> {
+        writer.write_u16_le(self.id)?;
+        writer.write_u16_le(self.level)?;
+        writer.write_u16_le(self.vertex_start)?;
+        writer.write_u16_le(self.vertex_count)?;
+        writer.write_u16_le(self.triangle_start)?;
+        writer.write_u16_le(self.triangle_count)?;
+        writer.write_u16_le(self.bone_count)?;
+        writer.write_u16_le(self.bone_start)?;
+
+        for &value in &self.center {
+            writer.write_f32_le(value)?;
+        }
+
+        writer.write_f32_le(self.bounding_radius)?;
+
+        Ok(())
+    }
+
     /// Write a submesh to a writer
     pub fn write<W: Write>(&self, writer: &mut W) -> Result<()> {
         writer.write_u16_le(self.id)?;
